@@ -275,19 +275,18 @@ func c01Arith(w *World, m *types.Func, kind, op string) []string {
 	popNumber := w.SSAFunc(w.Method("xpath", "context", "popNumber"))
 	pushDatum := w.SSAFunc(w.Method("xpath", "context", "pushDatum"))
 	newNum := w.SSAFunc(w.Func("xpath", "NewNumDatum"))
-	var pops []*ssa.Call
+	var pops []ssa.Value
 	var pushes []*ssa.Call
 	for _, b := range fn.Blocks {
 		for _, in := range b.Instrs {
-			if c, ok := in.(*ssa.Call); ok {
-				switch c.Call.StaticCallee() {
-				case popNumber:
-					pops = append(pops, c)
-				case pushDatum:
-					pushes = append(pushes, c)
-				}
+			if c, ok := in.(*ssa.Call); ok && c.Call.StaticCallee() == pushDatum {
+				pushes = append(pushes, c)
 			}
 		}
+	}
+	evs, atEntry := popEvents(w, fn, map[*ssa.Function]bool{popNumber: true})
+	for _, e := range evs {
+		pops = append(pops, e.val)
 	}
 	want := 2
 	if kind == "neg" {
@@ -296,8 +295,8 @@ func c01Arith(w *World, m *types.Func, kind, op string) []string {
 	if len(pops) != want {
 		return []string{fmt.Sprintf("pops %d numbers, expected %d", len(pops), want)}
 	}
-	for _, pc := range pops {
-		if pc.Block() != fn.Blocks[0] {
+	for _, pv := range pops {
+		if !atEntry || pv == nil {
 			return []string{"operands are not popped unconditionally at entry"}
 		}
 	}
@@ -322,16 +321,19 @@ func c01Arith(w *World, m *types.Func, kind, op string) []string {
 			descr = fmt.Sprintf("%s %s %s", operandName(x.X, pops), x.Op, operandName(x.Y, pops))
 			if kind == "arith" && op != "mod" {
 				wantOp := map[string]token.Token{"+": token.ADD, "-": token.SUB, "*": token.MUL, "/": token.QUO}[op]
-				okv = x.Op == wantOp && x.X == ssa.Value(pops[1]) && x.Y == ssa.Value(pops[0])
+				okv = x.Op == wantOp && x.X == pops[1] && x.Y == pops[0]
+				if (op == "+" || op == "*") && x.Op == wantOp && x.X == pops[0] && x.Y == pops[1] {
+					okv = true // IEEE 754 addition and multiplication are commutative
+				}
 			}
 		case *ssa.UnOp:
 			descr = fmt.Sprintf("%s%s", x.Op, operandName(x.X, pops))
-			okv = kind == "neg" && x.Op == token.SUB && x.X == ssa.Value(pops[0])
+			okv = kind == "neg" && x.Op == token.SUB && x.X == pops[0]
 		case *ssa.Call:
 			if c := x.Call.StaticCallee(); c != nil {
 				descr = c.String() + "(...)"
 				if op == "mod" && c.String() == "math.Mod" {
-					okv = x.Call.Args[0] == ssa.Value(pops[1]) && x.Call.Args[1] == ssa.Value(pops[0])
+					okv = x.Call.Args[0] == pops[1] && x.Call.Args[1] == pops[0]
 					descr = fmt.Sprintf("math.Mod(%s, %s)", operandName(x.Call.Args[0], pops), operandName(x.Call.Args[1], pops))
 				}
 			}
@@ -345,9 +347,9 @@ func c01Arith(w *World, m *types.Func, kind, op string) []string {
 	return probs
 }
 
-func operandName(v ssa.Value, pops []*ssa.Call) string {
+func operandName(v ssa.Value, pops []ssa.Value) string {
 	for i, p := range pops {
-		if v == ssa.Value(p) {
+		if v == p {
 			if len(pops) == 1 {
 				return "operand"
 			}
@@ -358,32 +360,55 @@ func operandName(v ssa.Value, pops []*ssa.Call) string {
 }
 
 func c01Bool(w *World, m *types.Func, op string) []string {
-	fd, p := w.FuncDecl(m)
-	popBool := w.Method("xpath", "context", "popBool")
-	newBool := w.Func("xpath", "NewBoolDatum")
-	var vars []types.Object
-	for _, s := range fd.Body.List {
-		if as, ok := s.(*ast.AssignStmt); ok && len(as.Rhs) == 1 {
-			if ce, ok := as.Rhs[0].(*ast.CallExpr); ok && calleeOf(p, ce) == popBool {
-				vars = append(vars, objOfIdent(p, as.Lhs[0]))
+	fn := w.SSAFunc(m)
+	popBool := w.SSAFunc(w.Method("xpath", "context", "popBool"))
+	newBool := w.SSAFunc(w.Func("xpath", "NewBoolDatum"))
+	evs, atEntry := popEvents(w, fn, map[*ssa.Function]bool{popBool: true})
+	if len(evs) != 2 {
+		return []string{fmt.Sprintf("pops %d booleans, expected 2", len(evs))}
+	}
+	if !atEntry || evs[0].val == nil || evs[1].val == nil {
+		return []string{"operands are not popped unconditionally at entry"}
+	}
+	var results []*ssa.Call
+	for _, b := range fn.Blocks {
+		for _, in := range b.Instrs {
+			if c, ok := in.(*ssa.Call); ok && c.Call.StaticCallee() == newBool {
+				results = append(results, c)
 			}
 		}
 	}
-	if len(vars) != 2 {
-		return []string{fmt.Sprintf("pops %d booleans, expected 2", len(vars))}
-	}
-	calls := callsTo(p, fd.Body, newBool)
-	if len(calls) != 1 {
+	if len(results) != 1 {
 		return []string{"does not push exactly one NewBoolDatum"}
 	}
-	be, ok := ast.Unparen(calls[0].Args[0]).(*ast.BinaryExpr)
-	wantOp := map[string]token.Token{"&&": token.LAND, "||": token.LOR}[op]
-	if !ok || be.Op != wantOp {
-		return []string{"result is not left " + op + " right"}
+	// the pushed value as a formula over the two popped booleans
+	sym := NewSym(w)
+	sym.Name(evs[0].val, "right")
+	sym.Name(evs[1].val, "left")
+	val := sym.Cond(results[0].Call.Args[0], nil)
+	if blk := results[0].Block(); blk != fn.Blocks[0] {
+		// `a && b` is control flow: the value is a phi whose edges carry the conditions
+		if phi, ok := results[0].Call.Args[0].(*ssa.Phi); ok {
+			val = pcZ
+			for i, e := range phi.Edges {
+				pred := phi.Block().Preds[i]
+				val = pcOrF(val, pcAndF(pcAndF(sym.PathCond(fn.Blocks[0], pred, nil), sym.edgeCond(pred, phi.Block(), nil)), sym.Cond(e, nil)))
+			}
+		}
 	}
-	a, b := objOfIdent(p, be.X), objOfIdent(p, be.Y)
-	if !((a == vars[0] && b == vars[1]) || (a == vars[1] && b == vars[0])) {
-		return []string{"result does not combine the two popped booleans"}
+	msg := pcCompare(val, func(a *pcAtom) string {
+		if a.key == "left" || a.key == "right" {
+			return a.key
+		}
+		return ""
+	}, func(env map[string]bool) bool {
+		if op == "&&" {
+			return env["left"] && env["right"]
+		}
+		return env["left"] || env["right"]
+	})
+	if msg != "" {
+		return []string{"result is not left " + op + " right: " + msg}
 	}
 	return nil
 }
